@@ -447,9 +447,8 @@ class CParser:
     def _declare_definition_parameters(self, decl: c_ast.Node) -> None:
         """Declares the parameters of the function being defined in the scope
         of its body (the '{' has just been lexed, so that scope is open).
-        _parse_function_decl does this when the parameter list is directly
-        followed by '{'; this also covers declarators where it is not:
-        'int (f(int T)) {' and 'int (*f(int T))(int U) {'.
+        The parameters are those of the outermost function declarator: in
+        'int (*f(int T))(int U) {' T is a parameter of f, U is not.
         """
         if isinstance(decl, c_ast.FuncDecl) and decl.args is not None:
             for param in decl.args.params:
@@ -1431,15 +1430,6 @@ class CParser:
             self._expect("RPAREN")
 
         func = c_ast.FuncDecl(args=args, type=None, coord=base_decl.coord)
-
-        if self._peek_type() == "LBRACE":
-            if func.args is not None:
-                for param in func.args.params:
-                    if isinstance(param, c_ast.EllipsisParam):
-                        break
-                    name = getattr(param, "name", None)
-                    if name:
-                        self._add_identifier(name, param.coord)
 
         return func
 
